@@ -33,7 +33,7 @@ def cases(tier, seed):
         kind = 'small-strict' if k < 4 else 'small-ext' if k < 7 else 'corpus' if k < 8 else 'union'
         out.append({'prop': ID, 'seed': seed, 'idx': i, 'kind': kind, 'tier': tier})
     from ..witness import WITNESSES
-    for rep in range(2 if tier == 'quick' else 12):
+    for rep in range(1 if tier == 'quick' else 12):
         for i in range(len(WITNESSES)):
             out.insert(0, {'prop': ID, 'seed': seed, 'idx': 10 ** 6 + rep * 100 + i, 'kind': 'witness', 'witness': i, 'tier': tier})
     wit = [c for c in out if c['kind'] == 'witness']
